@@ -1,0 +1,78 @@
+//go:build verif
+
+// Contracts for the verification machinery in /verif (comment-only; excluded from normal builds).
+// Property C30 (partial). Mode bv.
+//
+// The verdict logic of runTest is checked where it decides: assertions are placed at the call sites that
+// record a failure (fmt.Errorf), at the point a panic-test iteration is finished (the module rebuild), at
+// every os.Exit and at the final "ok" print. hp(s, p) is strings.HasPrefix as an uninterpreted predicate.
+
+package apptest
+
+//@ spec (declare-fun hp (Str Str) Bool)
+//@ extern strings.HasPrefix
+//@   ensures result == hp(s, prefix)
+//@   pure
+//@   trusted
+
+// every way out through os.Exit is a failure status
+//@ extern os.Exit
+//@   requires code != 0
+//@   noreturn
+
+// ---- assumed: build pipeline and engine (arbitrary results; BuildModule and AsExitError carry contracts in
+// internal/wazero)
+//@ extern loader.LoadProgram
+//@   trusted
+//@ extern (*compiler_wat.Compiler).Compile
+//@   trusted
+//@ extern compiler_wat.New
+//@   trusted
+//@ extern (*token.FileSet).ToJson
+//@   trusted
+//@ extern watutil.Wat2Wasm
+//@   trusted
+//@ extern (*wazero.Module).RunFunc
+//@   trusted
+//@ extern (*wazero.Module).Close
+//@   trusted
+//@ extern filepath.Match
+//@   trusted
+//@ extern strings.ReplaceAll
+//@   pure
+//@   trusted
+//@ extern time.Now
+//@   trusted
+//@ extern time.Since
+//@   trusted
+//@ extern (time.Duration).Round
+//@   pure
+//@   trusted
+//@ extern (*types.Package).Path
+//@   pure
+//@   trusted
+//@ func fmtGotOutput
+//@   trusted
+//@ func sWithPrefix
+//@   pure
+//@   trusted
+
+//@ func runTest
+//@   loop 0 invariant true
+//@   loop 1 invariant true
+//   Tests: a failure is recorded only for a test that breaks its contract ...
+//@   site fmt.Errorf.0 assert t.OutputPanic
+//@   site fmt.Errorf.1 assert t.OutputPanic && !hp(got, "panic: "+expect)
+//@   site fmt.Errorf.2 assert !t.OutputPanic && t.Output != "" && expect != got && err == nil
+//   ... and a panic test whose output does not start with "panic: <expected>" never ends its iteration
+//   without a recorded failure
+//@   site wazero.BuildModule.1 assert t.OutputPanic && (hp(got, "panic: "+expect) || firstError != nil)
+//   Examples: likewise
+//@   site fmt.Errorf.3 assert t.OutputPanic
+//@   site fmt.Errorf.4 assert t.OutputPanic && !hp(got, "panic: "+expect)
+//@   site fmt.Errorf.5 assert !t.OutputPanic && t.Output != "" && expect != got && err == nil
+//@   site wazero.BuildModule.2 assert t.OutputPanic && (hp(got, "panic: "+expect) || firstError != nil)
+//   the package is reported ok only when no failure was recorded
+//@   site fmt.Printf.12 assert firstError == nil
+//@   noframe
+//@   property C30
